@@ -190,7 +190,7 @@ func checkC01(c *Ctx) {
 		"X5/PS1: ChanSend.Write is the only send site; its blocking arm cannot drop an item (no default), Read's blocking arm likewise",
 		"X1: every worker loop drops exactly the skipped element and goes on",
 		"E8: the worker-group classification never aborts the group on a plain io.EOF or a skip (in-flight items of the other workers are not dropped)",
-		"P4: a worker never cancels the group's context on a non-error path", "P5: Split's outputs are distinct iterators", "V2: validation leaves at least one worker")
+		"P4: a worker never cancels the group's context on a non-error path", "P5: Split's outputs are distinct iterators", "V2: validation leaves at least one worker", "P6: no pipeline construct builds a non-blocking pipe")
 	c.R.NotCov = append(c.R.NotCov, "equality of the output and input multisets as values", "input order for a single worker / Buffer", "the semantics of Go channels themselves")
 	ruleP1(c, pipePkgs, 11)
 	ruleP2(c, pipePkgs, 15)
@@ -204,6 +204,7 @@ func checkC01(c *Ctx) {
 	ruleP4(c, pipePkgs, 6)
 	ruleP5(c)
 	ruleV2(c)
+	ruleP6(c, pipePkgs)
 }
 
 func checkC02(c *Ctx) {
@@ -329,7 +330,8 @@ func checkC11(c *Ctx) {
 func checkC12(c *Ctx) {
 	c.R.Clauses = append(c.R.Clauses,
 		"L1/L3d: the Collector's stack is touched only under its mutex and no reference to it escapes", "X4: nil is never stored", "X3: one unwind preference in all three flattening sites", "F3: every ParsePanic branch carries ErrRecoveredPanic",
-		"D1s/D3s: a Stack head is only ever changed by the push primitive (err, next and count together), never overwritten by a node copy")
+		"D1s/D3s: a Stack head is only ever changed by the push primitive (err, next and count together), never overwritten by a node copy",
+		"X9: Stack.Is/As/Unwrap/Resolve keep to the errors package's protocol (delegation with the right argument order, next-node unwrap, nil/single/stack resolution)")
 	c.R.NotCov = append(c.R.NotCov, "errors.Is/As for every constituent over all error trees", "single-error identity", "Unwind order and multiplicity")
 	owners := map[string]bool{"erc.Collector": true}
 	lockRules(c, owners, map[string]int{"L1": 4})
@@ -338,6 +340,7 @@ func checkC12(c *Ctx) {
 	ruleX3(c)
 	ruleF3(c)
 	ruleStackNode(c)
+	ruleX9(c)
 }
 
 func checkC14(c *Ctx) {
